@@ -4,7 +4,7 @@
    (corpus/C19/ex-*.case). *)
 From GoCar Require Import Bytes Varint Cid Header Frame V2Header Scan Index Store CliCmds.
 From GoCarProofs Require Import BytesFacts VarintFacts CidFacts HeaderFacts ScanFacts ScanTrunc ScanTruncV2 StoreInv
-  CliBase CliWalk CliProducers CliConcat CliFilter CliClosure CliTheorems.
+  CliBase CliWalk CliProducers CliConcat CliFilter CliClosure CliTheorems CliGet.
 
 Definition hok_true : bytes -> bytes -> option bool := fun _ _ => Some true.
 
@@ -268,6 +268,32 @@ Proof.
   - constructor; [split; [exact ex_blocks_ok|exact ex_hashes_ok]|].
     constructor; [split; [exact ex_blocks_ok|exact ex_hashes_ok]|constructor].
   - exact (proj2 concat_v2_witness).
+Qed.
+
+(* ---- car get-block ------------------------------------------------------------------------------------------ *)
+Example ex_no_index : no_index_input ex_hb ex_bs ex_v2.
+Proof. right. exists 0, 0, 7, []. repeat split; nlt. Qed.
+
+Example ex_get_block :
+  exists c d, In (c, d) ex_bs /\ same_mh c kc2 = true /\ get_block dec_header_canon ex_v2 kc2 = Ok d.
+Proof.
+  apply (get_block_generated hok_true dec_header_canon dec_header_pragma ex_hb ex_roots ex_bs ex_v2 kc2 xp2
+           ex_hdr_ok ex_blocks_ok ex_indexable ex_no_index); vm_compute; reflexivity.
+Qed.
+Example ex_get_block_value : get_block dec_header_canon ex_v2 kc2 = Ok [x62; x63].
+Proof. vm_compute. reflexivity. Qed.
+
+Example ex_get_block_identity : get_block dec_header_canon ex_v2 kci = Ok [x69; x64].
+Proof.
+  exact (get_block_identity hok_true dec_header_canon dec_header_pragma ex_hb ex_roots ex_bs ex_v2 kci xpi
+           ex_hdr_ok ex_blocks_ok ex_indexable ex_no_index eq_refl eq_refl).
+Qed.
+
+Example ex_get_block_absent :
+  get_block dec_header_canon ex_v2 (cid_enc (mkcid 1 85 18 (x00 :: tl dg_bc))) = Err ENotFound.
+Proof.
+  apply (get_block_generated_absent hok_true dec_header_canon dec_header_pragma ex_hb ex_roots ex_bs ex_v2 _
+           (mkcid 1 85 18 (x00 :: tl dg_bc)) ex_hdr_ok ex_blocks_ok ex_indexable ex_no_index); vm_compute; reflexivity.
 Qed.
 
 (* ---- the same bytes as the replayed corpus case ---------------------------------------------------- *)
